@@ -71,10 +71,9 @@ extern int mpt_vprintf(MPT_STRUCT(array) *arr, const char *format, va_list args)
 		buf->_used = used;
 		return MPT_ERROR(BadValue);
 	}
-	if (rval >= 0 && (size_t) rval <= len) {
-		if ((size_t) rval < len) {
-			base[rval] = '\0';
-		}
+	/* text and termination fit into available space */
+	if ((size_t) rval < len) {
+		base[rval] = '\0';
 		buf->_used = used + rval;
 		return rval;
 	}
@@ -84,14 +83,16 @@ extern int mpt_vprintf(MPT_STRUCT(array) *arr, const char *format, va_list args)
 	if (!(base = mpt_array_slice(arr, used, len))) {
 		return MPT_ERROR(BadOperation);
 	}
+	buf = arr->_buf;
 	size = used + len;
 	if ((rval = vsnprintf(base, len, format, args)) > 0) {
-		used += rval;
-		if (used < size) {
+		if ((used + rval) < size) {
 			base[rval] = '\0';
+			buf->_used = used + rval;
 			return rval;
 		}
 	}
+	buf->_used = used;
 	return MPT_ERROR(BadValue);
 }
 
